@@ -1,7 +1,7 @@
 (* C18 — decorator application order, repeated use, lifetimes. *)
 From Coq Require Import Permutation.
 From Sigtools.Model Require Import Base Cache.
-From Sigtools.Proofs Require Import Cache.
+From Sigtools.Proofs Require Import Cache CacheExact CacheForms.
 
 Theorem C18_order : forall d l1 l2 d1 d2,
   Permutation l1 l2 -> Forall explicit l1 ->
@@ -79,3 +79,55 @@ Theorem C18_unreachable : forall st s ws2,
           (slot_inst st s).
 Proof. exact drop_unreachable. Qed.
 Print Assumptions C18_unreachable.
+
+(* ---- order independence for EVERY decorator form (start=, end=, autokwoargs, annotate included), closed forms
+   of the selecting forms, what is order dependent (admissibility itself: refutations checked on the code);
+   reclamation and refinement characterised exactly (Proofs/CacheForms.v, CacheExact.v) ---- *)
+Theorem C18_order_forms : forall (d : dobj) (l1 l2 : list modifier) (d1 d2 : dobj), wfd d -> good d -> Permutation l1 l2 -> ann_functional (all_anns l1) -> rets_agree (all_rets l1) -> run_mods d l1 = Some d1 -> run_mods d l2 = Some d2 -> dequiv d1 d2 /\ advertised d1 = advertised d2 /\ (forall (a : list N) (k : list (name * N)), pok_call d1 a k = pok_call d2 a k).
+Proof. exact @CacheForms.order_forms. Qed.
+Print Assumptions C18_order_forms.
+
+Theorem C18_forms_sets : forall (d : dobj) (l1 l2 : list modifier) (d1 d2 : dobj), inv d -> Permutation l1 l2 -> run_mods d l1 = Some d1 -> run_mods d l2 = Some d2 -> forall x : name, Pm d1 x = Pm d2 x /\ Km d1 x = Km d2 x.
+Proof. exact @CacheForms.forms_sets. Qed.
+Print Assumptions C18_forms_sets.
+
+Theorem C18_start_closed : forall (d : dobj) (s : name), korder (d_params d) = true -> good d -> start_names s false (adv_params d) = (from s (free_names d), mem s (free_names d)).
+Proof. exact @CacheForms.start_closed. Qed.
+Print Assumptions C18_start_closed.
+
+Theorem C18_end_closed : forall (d : dobj) (e : name), korder (d_params d) = true -> good d -> end_names e false (adv_params d) = (upto e (free_names d), mem e (free_names d)).
+Proof. exact @CacheForms.end_closed. Qed.
+Print Assumptions C18_end_closed.
+
+Theorem C18_auto_closed : forall (d : dobj) (E : list name), korder (d_params d) = true -> good d -> auto_names E (adv_params d) = (if forallb (fun e : N => mem e (free_def_names d)) E then Some (filter (fun x : N => negb (mem x E)) (free_def_names d)) else None).
+Proof. exact @CacheForms.auto_closed. Qed.
+Print Assumptions C18_auto_closed.
+
+Theorem C18_wf_sig_wfd : forall d : dobj, wf_sig (d_params d) = true -> wfd d.
+Proof. exact @CacheForms.wf_sig_wfd. Qed.
+Print Assumptions C18_wf_sig_wfd.
+
+Theorem C18_good_bare : forall (ps : list param) (r : option N), good {| d_params := ps; d_ret := r; d_pos := []; d_kwo := [] |}.
+Proof. exact @CacheForms.good_bare. Qed.
+Print Assumptions C18_good_bare.
+
+Theorem C18_order_forms_defaults_refuted : korder (d_params bad_defaults) = true /\ nodupb (pk_names (d_params bad_defaults)) = true /\ (exists d1 d2 : dobj, run_mods bad_defaults [MPosEnd 2 []; MAuto []] = Some d1 /\ run_mods bad_defaults [MAuto []; MPosEnd 2 []] = Some d2 /\ Pm d1 1 = true /\ Pm d2 1 = false /\ Km d2 1 = true).
+Proof. exact @CacheForms.order_forms_defaults_refuted. Qed.
+Print Assumptions C18_order_forms_defaults_refuted.
+
+Theorem C18_admissibility_order_refuted : wf_sig (d_params two_defaults) = true /\ run_mods two_defaults [MPosEnd 1 []; MAuto []] <> None /\ run_mods two_defaults [MAuto []; MPosEnd 1 []] = None /\ run_mods two_defaults [MAuto [2]; MPosEnd 2 []] <> None /\ run_mods two_defaults [MPosEnd 2 []; MAuto [2]] = None /\ run_mods two_defaults [MKwoStart 2 []; MPosEnd 2 []] = None /\ run_mods two_defaults [MPosEnd 2 []; MKwoStart 2 []] = None /\ run_mods two_defaults [MPos [1]; MPos [2]] <> None /\ run_mods two_defaults [MPos [2]; MPos [1]] = None.
+Proof. exact @CacheForms.admissibility_order_refuted. Qed.
+Print Assumptions C18_admissibility_order_refuted.
+
+Theorem C18_reclaim_exact : forall (h : list op) (s : bool), let st := run_state DPok c_init h in o_reclaimed (snd (impl_step DPok st (OpDrop s))) = negb (cached st (slot_inst st s)).
+Proof. exact @CacheExact.reclaim_exact. Qed.
+Print Assumptions C18_reclaim_exact.
+
+Theorem C18_refines_exact : forall h : list op, map obs_beh (run_impl DPok c_init h) = map obs_beh (run_spec DPok 0 h) <-> stale_free (SFresh, SFresh) h = true.
+Proof. exact @CacheExact.refines_exact. Qed.
+Print Assumptions C18_refines_exact.
+
+Theorem C18_stale_free_weaker : forall h : list op, no_redecorate_after_touch false h = true -> stale_free (SFresh, SFresh) h = true.
+Proof. exact @CacheExact.stale_free_weaker. Qed.
+Print Assumptions C18_stale_free_weaker.
+
